@@ -143,6 +143,14 @@ const ATTR_VALUES_RICH: &[(&str, &str)] = &[
     ("]]>", "]]>"),
     ("urn:x", "urn:x"),
     ("http://example.org/ns?a=1", "http://example.org/ns?a=1"),
+    // quotes of either kind (the one that delimits the value is written as a reference), `name=value` look-alikes inside
+    ("it's two", "it's two"),
+    ("say \"hi\"", "say \"hi\""),
+    ("a 'k=v' b", "a 'k=v' b"),
+    ("\"x=1\" 'y=2'", "\"x=1\" 'y=2'"),
+    ("'", "'"),
+    ("\"", "\""),
+    (" k='v' ", " k='v' "),
 ];
 const ATTR_VALUES_ESC: &[(&str, &str)] = &[
     ("&lt;", "<"),
